@@ -1,5 +1,6 @@
 """C17 — orderly shutdown in any order leaves nothing behind."""
 import core, pubsub_common as ps
+import pC05ports
 
 
 def shutdown_oracle(case, idx, base):
@@ -28,13 +29,16 @@ def run(ctx):
         core.diff_component(ctx, "pubsub", ["gen", "--exhaustive", 1, "shutdown"], cl, label="pubsub.shutdown-permutations-local", shrink=False, line_oracle=shutdown_oracle)
         core.diff_component(ctx, "pubsub", ["gen", "--seed", ctx.seed, "--cases", 400 if quick else 8000, "shutdown", "ipc"], cl, label="pubsub.shutdown-random",
                             line_oracle=shutdown_oracle)
+        # the same for the event pattern: node handle, service handle, notifiers, listeners
+        pC05ports.ports_part(ctx, "C17")
     return core.finish(
         ctx, level="proof",
         rule="object graphs of a publish-subscribe service in one node: node handle, service handle (port factory), publishers, subscribers, unsent loans, received samples; "
              "every permutation of the drop order of a 6-object graph (720) for two configurations, ipc and local variants, plus random graphs (1..2 publishers / subscribers, 0..2 loans, "
-             "0..2 samples) with random drop orders and survivors exercised between drops (loan+send, has_samples); after every drop the set of existing resources by kind (node "
+             "0..2 samples) with random drop orders and survivors exercised between drops (loan+send, has_samples); the same for an event service (node handle, service handle, "
+             "2 notifiers, 2 listeners: 720 orders x 2 configurations, plus random graphs on 1..2 nodes; survivors notify / wait between drops); after every drop the set of existing resources by kind (node "
              "monitor files, node details, node directory, service tag, static config, dynamic config, port tags, data segments, connections: files of the case's own config prefix "
              "under the iceoryx2 root and /dev/shm) is compared with the model's `resources`; oracle on the implementation alone: no panic, nothing left after the last drop",
-        extra_assumptions=["publish-subscribe only; event / request-response / blackboard object graphs and wait-set guards are not enumerated (their ports follow the same tag-first / registry-last pattern by reading)",
+        extra_assumptions=["publish-subscribe and event only; request-response / blackboard object graphs and wait-set guards are not enumerated (their ports follow the same tag-first / registry-last pattern by reading)",
                            "one node per case; several nodes sharing the service are covered by the registry theorems (C10) only",
                            "the local variant has no file-system footprint: only behaviour and panics are compared there"])
